@@ -806,8 +806,11 @@ def scenarios(draw, prof=None):
         tags.append("regulariser")
         # S-FISTA sub-problems cost ~0.1 s per iteration: keep regularised runs short (budget in evaluations, not time)
         case["maxfun"] = min(case["maxfun"] or 20, prof.get("reg_maxfun", 20))
-        if draw(st.integers(0, 9)) > 0:
-            up["func_tol.max_iters"] = draw(st.sampled_from([10, 25, 50]))   # a documented key; keeps S-FISTA cheap
+        # documented keys that keep regularised runs cheap: every iteration (with or without an evaluation) costs two
+        # S-FISTA solves, and soft restarts can chain many evaluation-free iterations
+        up["func_tol.max_iters"] = draw(st.sampled_from([10, 25, 50]))
+        if up.get("restarts.use_restarts") or case.get("noise_flag"):
+            up["restarts.max_unsuccessful_restarts"] = min(up.get("restarts.max_unsuccessful_restarts", 2), 2)
     case["up"] = up
     case["np_seed"] = draw(st.integers(0, 2 ** 16))
     case["tags"] = sorted(set(tags))
